@@ -74,7 +74,7 @@ def build(name, main_src, repo_srcs=(), sanitize=True, opt='-O0', extra=(), libs
         out, _ = p.communicate(timeout=timeout)
         if p.returncode != 0:
             raise Undecided('native build failed for %s: %s' % (s, out[-1500:]))
-    exe = os.path.join(d, 'a.out')
+    exe = os.path.join(d, 'a.%d.out' % os.getpid())      # parallel jobs may build the same replay program
     rc, out, err, w = run(['g++'] + flags + objs + ['-o', exe] + list(libs), timeout=timeout, mem_gb=64)
     if rc != 0:
         raise Undecided('native link failed: ' + (err or out)[-1500:])
